@@ -38,6 +38,7 @@ ASSUMPTIONS = [
 ]
 
 POW = z3.Function('pow', R, I, R)
+SUMSEQ = z3.Function('sum_seq', z3.SeqSort(R), R)     # sum of a sequence of reals (uninterpreted; contracts state what they need)
 
 
 _mj = itertools.count()
@@ -694,6 +695,8 @@ class Exec:
                     c = (y < x) if name == 'min' else (y > x)
                     r = VR(z3.If(c, y, x))
             return r
+        if name == 'sum' and len(args) == 1 and args[0].kind == 'seq' and args[0].x['ek'].kind in ('real', 'num'):
+            return VR(SUMSEQ(args[0].t))
         if name in IDENTITY_FUNCS:
             a = args[0]
             if a.kind == 'int' and name in ('sympify', 'ssympify'): return V('num', z3.ToReal(a.t), integral=True)
@@ -701,7 +704,14 @@ class Exec:
         if name in ('list', 'tuple'):
             if not args: return V('seq', None, ek=None, empty=True)
             a = args[0]
-            if a.kind in ('seq', 'comp', 'range'): return a
+            if a.kind == 'range':
+                lo, hi = a.x['lo'], a.x['hi']
+                n = z3.If(hi - lo < 0, 0, hi - lo)
+                r = self.fresh(z3.SeqSort(I), 'rangelist'); j = self.fresh(I, 'rj')
+                self.axioms += [z3.Length(r) == n, z3.ForAll([j], z3.Implies(z3.And(0 <= j, j < n), r[j] == lo + j))]
+                return V('seq', r, ek=DI)
+            if a.kind == 'comp': return self.materialise(st, a)
+            if a.kind in ('seq',): return a
             if a.kind == 'set': return V('seq', a.t, **a.x)
             raise OutOfReach(f'list({a.kind})')
         if name == 'set':
@@ -813,6 +823,7 @@ class Exec:
             for t, x in zip(target.elts, v.t): self.store(t, x, st)
             return st
         if isinstance(target, ast.Attribute):
+            if v.kind == 'comp': v = self.materialise(st, v)
             o = self.ev(target.value, st)
             if o.kind != 'obj': raise OutOfReach(f'attribute store on {o.kind} (line {target.lineno})')
             st.setfield(o, target.attr, v)
@@ -920,6 +931,20 @@ class Exec:
             j = self.fresh(I, 'cj')
             cst = comp.x['st'].fork(0 <= j, j < n)
             self.store(comp.x['target'], src.x['ek'].wrap(src.t[j]), cst)
+            save = self.dry; self.dry += 1
+            try: el = self.ev(comp.x['elt'], cst)
+            finally: self.dry = save
+            ek = desc_of(el)
+            r = self.fresh(z3.SeqSort(ek.sort()), 'comp')
+            self.axioms.append(z3.Length(r) == n)
+            self.axioms.append(z3.ForAll([j], z3.Implies(z3.And(0 <= j, j < n), r[j] == unwrap(el, ek))))
+            return V('set' if comp.x['settype'] else 'seq', r, ek=ek)
+        if src.kind == 'range' and not comp.x['conds']:
+            lo, hi = src.x['lo'], src.x['hi']
+            n = z3.If(hi - lo < 0, 0, hi - lo)
+            j = self.fresh(I, 'cj')
+            cst = comp.x['st'].fork(0 <= j, j < n)
+            self.store(comp.x['target'], VI(lo + j), cst)
             save = self.dry; self.dry += 1
             try: el = self.ev(comp.x['elt'], cst)
             finally: self.dry = save
